@@ -38,6 +38,11 @@ LEAVES = [
     (op("time", B1), "time(b(1))"),
     (bip("unify", X0, atom("b")), "$X = b"),
     (call(cplx("u", cplx("f", integer(1), integer(2)), atom("g"))), "u(f(1, 2), g)"),
+    # infix unification with parentheses / brackets on BOTH sides of the operator
+    (bip("unify", cplx("f", X0), cplx("f", atom("a"))), "f($X) = f(a)"),
+    (bip("unify", cplx("pair", X0, Y0), cplx("pair", integer(1), integer(2))), "pair($X, $Y) = pair(1, 2)"),
+    (bip("unify", lst([cplx("f", X0)], var(0, "$T")), lst([cplx("f", atom("a")), cplx("g", atom("b"))])), "[f($X) | $T] = [f(a), g(b)]"),
+    (bip("unify", cplx("f", lst([X0])), X0), "f([$X]) = $X"),
 ]
 
 # goal trees: ("leaf", k) | ("and", [..]) | ("or", [..])
